@@ -38,7 +38,47 @@ def _set_str(lit, s):
     lit["q"] = _q(s)
 
 
+def _crc_twins(base):
+    """two different equal-length strings with the same CRC-32 (and so the same CRC-32 wherever they replace each other in a
+    text): CRC is affine over GF(2), so among >32 single-bit flips of `base` some subset cancels (Gaussian elimination)"""
+    import zlib
+
+    raw = base.encode("ascii")
+    c0 = zlib.crc32(raw)
+    vecs = []
+    for i in range(len(raw)):
+        f = bytearray(raw)
+        f[i] ^= 1
+        vecs.append((zlib.crc32(bytes(f)) ^ c0, 1 << i))
+    basis = {}  # leading bit -> (vector, combination mask)
+    for v, m in vecs:
+        while v:
+            h = v.bit_length() - 1
+            if h not in basis:
+                basis[h] = (v, m)
+                break
+            bv, bm = basis[h]
+            v ^= bv
+            m ^= bm
+        else:
+            out = bytearray(raw)
+            for i in range(len(raw)):
+                if m >> i & 1:
+                    out[i] ^= 1
+            twin = out.decode("ascii")
+            assert twin != base and zlib.crc32(out) == c0
+            return base, twin
+    raise AssertionError("no dependency found")
+
+
+CRC_A, CRC_B = _crc_twins("bcfgjknorsvwzbcfgjknorsvwzbcfgjknorsvwzbcfg")
+
 STRING_EDITS = [
+    # texts that weak change-detection fingerprints cannot tell apart (same length; same byte sum / Adler-32 / CRC-32)
+    ("Adler-32 twins (+1 -2 +1 on adjacent bytes)", lambda s: (s + "121", s + "202")),
+    ("Adler-32 twins (+1 -1 -1 +1)", lambda s: (s + "a0110", s + "a1001")),
+    ("transposed characters (same length and byte sum)", lambda s: (s + "ab", s + "ba")),
+    ("CRC-32 twins", lambda s: (s + CRC_A, s + CRC_B)),
     ("blank doubled inside a string", lambda s: (s + " x", s + "  x")),
     ("blank vs TAB inside a string", lambda s: (s + " x", s + "\tx")),
     ("trailing blank inside a string", lambda s: (s + "x", s + "x ")),
@@ -149,4 +189,22 @@ def _neighbours(prog):
         gb = M.returns(b["body"])[0]["groups"]
         gb[0]["w"] = gb[0]["w"] + "0" if "." not in gb[0]["w"] else gb[0]["w"].split(".")[0] + "1." + gb[0]["w"].split(".")[1]
         res.append(("first weight with one more digit", copy.deepcopy(prog), b))
+        if len(rets[0]["groups"]) >= 3:
+            # 1 , 2 , 1  ->  2 , 0 , 2  (equally spaced bytes changed by +1 -2 +1: the same Adler-32, length and byte sum)
+            a, b = copy.deepcopy(prog), copy.deepcopy(prog)
+            for p_, ws in ((a, ("1", "2", "1")), (b, ("2", "0", "2"))):
+                g_ = M.returns(p_["body"])[0]["groups"]
+                labs = [x["lit"] for x in g_[:3]]
+                if len({len(" ".join(t for _, t in M.lit_tokens(l))) for l in labs[1:]}) != 1:
+                    break
+                for x, w in zip(g_[:3], ws):
+                    x["w"] = w
+                for x in g_[3:]:
+                    x["w"] = "0"
+            else:
+                res.append(("Adler-32 twin weights 1,2,1 vs 2,0,2", a, b))
+        a, b = copy.deepcopy(prog), copy.deepcopy(prog)
+        M.returns(a["body"])[0]["groups"][0]["w"] = "121"
+        M.returns(b["body"])[0]["groups"][0]["w"] = "202"
+        res.append(("Adler-32 twin weight 121 vs 202", a, b))
     return res
